@@ -225,6 +225,13 @@ theorem C18_shiftdfaPatterns : Loop.shiftdfaPatterns.OrderIndependent := by
       simp only [GoMap.set]
       by_cases h1 : k = a.1 <;> by_cases h2 : k = b.1 <;> simp_all
 
+theorem C18_templatesRemapArgRefs : Loop.templatesRemapArgRefs.OrderIndependent := by
+  intro syms xs ys hd h
+  exact C18_point_updates_perm _ _ _ hd h
+
+example : templatesRemapArgRefs (fun k => if k = 1 then some 9 else none) [(1, ⟨1, 4, 0⟩), (2, ⟨2, 5, 0⟩)] 1
+    = some ⟨1, 9, 0⟩ := by decide
+
 /-- The claim attached to a classification. -/
 def claim : SiteClass → Prop
   | .orderIndependent _ loop _ => loop.OrderIndependent
@@ -247,6 +254,7 @@ theorem C18_every_loop_order_independent : ∀ l : Loop, l.OrderIndependent
   | .genReverseLookup => C18_genReverseLookup
   | .genGoImports => C18_genGoImports
   | .shiftdfaPatterns => C18_shiftdfaPatterns
+  | .templatesRemapArgRefs => C18_templatesRemapArgRefs
 
 /-- Every classified site's loop model is order independent (under the hypotheses spelled out in
 `Loop.OrderIndependent`; sites classified `outsideProperty` claim nothing). -/
